@@ -121,7 +121,7 @@ def modif_event(tid, base0, bound, form, po=(), kwo=(), order='po_first', s='', 
     if bound and base0 and base0[0]['k'] == 'po':
         base[0] = dict(base[0], k='po')
     f = make(base)
-    e = {'tid': tid, 'op': 'modif', 'base': base, 'bound': bound, 'form': form, 'po': list(po), 'kwo': list(kwo), 'order': order,
+    e = {'tid': tid, 'op': 'modif', 'bindexc': '', 'base': base, 'bound': bound, 'form': form, 'po': list(po), 'kwo': list(kwo), 'order': order,
          's': s, 'extra': list(extra), 'exc': list(exc), 'adv': [], 'calls': [],
          'case': {'base0': base0, 'bound': bound, 'form': form, 'po': list(po), 'kwo': list(kwo), 'order': order, 's': s, 'extra': list(extra), 'exc': list(exc)}}
     try:
@@ -133,14 +133,22 @@ def modif_event(tid, base0, bound, form, po=(), kwo=(), order='po_first', s='', 
         e['decorated'] = 'other:' + type(ex).__name__
         return e
     e['decorated'] = 'ok'
+    e['bindexc'] = ''
     inst = None
     target = d
     if bound:
         K = type('K', (object,), {'m': d})
         inst = K()
-        target = inst.m
+        try:
+            target = inst.m
+        except Exception as ex:  # noqa
+            e['bindexc'] = type(ex).__name__
+            return e
     e['adv'] = routes(target)
     e['calls'] = call_all(target, base, bound, inst)
+    if bound:
+        for c in e['calls']:
+            c['map'].pop('self', None)         # the contract is stated at the bound level (Trace_Modifiers)
     return e
 
 
